@@ -528,3 +528,9 @@ M('C18', 'seed C18-agent2-1: empty entry file unlinked when the function raises'
 M('C18', 'recursion entry files removed with os.remove after the end marker', 'cache.py', "                if stop:\n                    return\n                yield value", "                if stop:\n                    os.remove(cachefile)\n                    return\n                yield value", rule='R18.8')
 M('C18', 'seed C18-agent2-2: end marker returns before replaying its log', 'cache.py', "                            log.debug('[cache.Recursion {}.{:04d}] load'.format(hkey, i))\n                            log_.replay()", "                            log.debug('[cache.Recursion {}.{:04d}] load'.format(hkey, i))\n                            if stop:\n                                return\n                            log_.replay()", rule='R18.5')
 M('C18', 'benign: replay before the debug line', 'cache.py', "                            log.debug('[cache.Recursion {}.{:04d}] load'.format(hkey, i))\n                            log_.replay()", "                            log_.replay()\n                            log.debug('[cache.Recursion {}.{:04d}] load'.format(hkey, i))", expect='silent')
+M('C15', 'revert F22: blocks are not validated on their own', 'matrix/__init__.py', "            if not (block_rowptr[0] == 0 and\n                    all(block_rowptr[1:] >= block_rowptr[:-1]) and\n                    block_rowptr[-1] == len(block_values) == len(block_colidx)):\n                raise MatrixError('assemble received invalid row indices')\n            if not (all(block_colidx >= 0) and\n                    all(block_colidx < block_ncols)):\n                raise MatrixError('assemble received invalid column indices')\n", "", rule='R15.9')
+M('C15', 'block column indices compared with <= width', 'matrix/__init__.py', "                    all(block_colidx < block_ncols)):", "                    all(block_colidx <= block_ncols)):", rule='R15.9')
+M('C15', 'block column indices compared with the total width', 'matrix/__init__.py', "                    all(block_colidx < block_ncols)):", "                    all(block_colidx < ncols)):", rule='R15.9')
+M('C15', 'block row pointer start not checked', 'matrix/__init__.py', "            if not (block_rowptr[0] == 0 and\n                    all(block_rowptr[1:] >= block_rowptr[:-1]) and", "            if not (all(block_rowptr[1:] >= block_rowptr[:-1]) and", rule='R15.9')
+M('C15', 'block validation after the block was used', 'matrix/__init__.py', "            if not (all(block_colidx >= 0) and\n                    all(block_colidx < block_ncols)):\n                raise MatrixError('assemble received invalid column indices')\n            if len(block_values):\n                block_data.append((block_values, block_rowptr, block_colidx + col_offset))\n", "            if len(block_values):\n                block_data.append((block_values, block_rowptr, block_colidx + col_offset))\n            if not (all(block_colidx >= 0) and\n                    all(block_colidx < block_ncols)):\n                raise MatrixError('assemble received invalid column indices')\n", rule='R15.9')
+M('C15', 'benign: block checks as separate statements', 'matrix/__init__.py', "            if not (all(block_colidx >= 0) and\n                    all(block_colidx < block_ncols)):\n                raise MatrixError('assemble received invalid column indices')\n", "            if not all(block_colidx >= 0):\n                raise MatrixError('assemble received invalid column indices')\n            if not all(block_ncols > block_colidx):\n                raise MatrixError('assemble received invalid column indices')\n", expect='silent')
